@@ -106,7 +106,8 @@ Fixpoint last_end (x : snap) (rs : list round) : snap :=
   end.
 
 (* every export is within the field widths of the previous one; a push round
-   exports a snapshot whose queue tick AND some synchronised tick moved *)
+   exports a snapshot whose queue tick moved (every transition moves it).
+   old code: "... AND some synchronised tick moved" (tracked_changed) *)
 Fixpoint rounds_ok (c : cfg) (x : snap) (rs : list round) : Prop :=
   match rs with
   | [] => True
@@ -114,7 +115,7 @@ Fixpoint rounds_ok (c : cfg) (x : snap) (rs : list round) : Prop :=
     let y := round_end r in
     length (s_time x) = length (s_time y) /\ snaps_in_range x y = true /\
     match r with
-    | RPush _ _ => s_q x <> s_q y /\ tracked_changed c x y = true
+    | RPush _ _ => s_q x <> s_q y
     | RReply _ _ => True
     end /\ rounds_ok c y rest
   end.
